@@ -234,6 +234,10 @@ def _replay_backprop(rep, verbose):
                 X[:] = (X + X.T) / 2
             if family in ("RIM", "KernelRIM") and mdl.reg == 0:
                 mdl.reg = 0.3
+        for j in (rep.get("null_rows") or []):
+            for nm, a in params:
+                if nm in ("W1_", "W_skip_", "W_"):
+                    a[j] = 0.0
         bad = _fd_compare(family, mdl, X, G, params, rep.get("param"), verbose)
         if bad:
             return True
